@@ -184,4 +184,24 @@ theorem fresh_id_drawn_iff (g : Graph) (s : St) (x : Name) :
   · intro h; simp [putJob, nextAfter, h]
   · intro r h; simp [putJob, nextAfter, h]
 
+
+/-! non-vacuity: a valid history with a stale registration, a disconnect and a reload; the tick
+    hands the queued task to the one eligible worker and nothing to the others. -/
+def demoOps : List FOp :=
+  [.setActive true, .register 1 0, .register 2 9, .register 3 0, .disconnect 1,
+   .dispatch [⟨0, 1, 5⟩, ⟨0, 2, 5⟩]]
+
+example : Farm.ValidRun (FSt.init 0) demoOps := by
+  simp [demoOps, Farm.ValidRun, Farm.OpOk, Farm.step, register, disconnect, FSt.init, setF]
+
+example : (Farm.run (FSt.init 0) demoOps).log =
+    [(2, Wire.abort), (3, Wire.task ⟨0, 1, 5⟩)] ∧
+    (Farm.run (FSt.init 0) demoOps).cluster = [⟨0, 2, 5⟩] := by
+  decide +kernel
+
+/-- the archive tick: a waiting worker is told to leave in the tick that makes the pipeline inactive -/
+example : (Farm.run (FSt.init 0) [.setActive true, .register 1 0, .setArchive true, .dispatch []]).log =
+    [(1, Wire.abort)] := by
+  decide +kernel
+
 end DawgieVerif.C11
